@@ -111,8 +111,23 @@ def scratch_root():
     global _scratch_root
     if _scratch_root is None or not os.path.isdir(_scratch_root):
         base = "/dev/shm" if os.path.isdir("/dev/shm") and os.access("/dev/shm", os.W_OK) else None
+        _sweep_stale(base or tempfile.gettempdir())
         _scratch_root = tempfile.mkdtemp(prefix="eolib-verif-", dir=base)
     return _scratch_root
+
+
+def _sweep_stale(base, max_age_s=6 * 3600):
+    """Remove scratch roots left behind by killed runs (older than six hours)."""
+    import time
+
+    try:
+        for name in os.listdir(base):
+            if name.startswith("eolib-verif-"):
+                p = os.path.join(base, name)
+                if time.time() - os.path.getmtime(p) > max_age_s:
+                    shutil.rmtree(p, ignore_errors=True)
+    except OSError:
+        pass
 
 
 def scratch_dir(prefix="d"):
